@@ -872,7 +872,7 @@ def mecab_example_classify(line, impl, mobs, extra):
 
 def c19_streams(tier, seed):
     base = with_cli(simple_streams("corpus", 1000, 30000, corpus_classify), {"corpus": corpus_classify},
-                    ("tokenize-output-mecab", "tokenize-mecab-tokens-differ", "tokenize-status", "train-status"), 12, 400)
+                    ("tokenize-output-mecab", "tokenize-mecab-tokens-differ", "tokenize-status", "train-status"), 12, 120)
     # "... so tokenizer output can be fed to train, split and evaluate": the real split / evaluate / tokenize -O wakati|detail
     return list(base(tier, seed)) + [(["evalsplit", str(seed), "150" if tier == "quick" else "3000"], evalsplit_classify, {"cli": True})]
 
@@ -958,7 +958,7 @@ PROPS = {
                      # "the emitted files always compile", in full
                      "Vibrato.C14.matrix_def_parses_back", "Vibrato.C14.unk_def_parses_back", "Vibrato.C14.emitted_compiles",
                      "Vibrato.C14.emitted_files_compile"],
-        "streams": with_cli(train_streams("C14", 40, 2000), {"train": train_classifier("C14")}, (), 12, 400),
+        "streams": with_cli(train_streams("C14", 40, 600), {"train": train_classifier("C14")}, (), 12, 120),
         "rule": "tiny training set-ups (3-8 lexicon rows with homographs and quoted surfaces, generated char.def/unk.def, feature.def "
                 "with 1-4 unigram and 1-12 bigram templates incl. ? forms and %t, a few rewrite rules, <= 10 sentences) trained with "
                 "the real rucrf; per model 4 generate cases (reloaded image, with/without user lexicon, image written after "
@@ -974,7 +974,7 @@ PROPS = {
                      "Vibrato.C15.reload_generates_same", "Vibrato.C15.generate_respects_equiv",
                      "Vibrato.C15.user_lexicon_respects_equiv", "Vibrato.C15.generate_after_user_respects_equiv",
                      "Vibrato.C15.reloaded_user_file_empty"],
-        "streams": with_cli(train_streams("C15", 40, 1000), {"train": train_classifier("C15")}, ("train-",), 12, 400),
+        "streams": with_cli(train_streams("C15", 40, 600), {"train": train_classifier("C15")}, ("train-",), 12, 120),
         "rule": "same set-ups as C14; histories generate, generate, write_model, read_model, generate, read_user_lexicon, generate, "
                 "write_model again; the model image is decoded and re-encoded byte-exactly by the Lean model",
         "trusted_base": TRAINER_TB,
@@ -987,7 +987,7 @@ PROPS = {
                      "Vibrato.C07.presum_fits_of_bound", "Vibrato.C07.presum_fits_le8", "Vibrato.C07.dual_eq_raw_of_bound",
                      "Vibrato.C16.trunc_sum_bound", "Vibrato.C16.entry_close", "Vibrato.C16.bigram_matrix_close",
                      "Vibrato.C16.bigram_matrix_close_eos", "Vibrato.C16.bigram_matrix_close_bos", "Vibrato.C16.dims_agree"],
-        "streams": with_cli(train_streams("C16", 40, 2000), {"train": train_classifier("C16")}, (), 12, 400),
+        "streams": with_cli(train_streams("C16", 40, 600), {"train": train_classifier("C16")}, (), 12, 120),
         "rule": "same set-ups as C14; the emitted bigram files are compiled with the raw and the dual connector and every cost is "
                 "compared with the matrix dictionary compiled from the emitted matrix.def; measured max difference vs K+1",
         "trusted_base": TRAINER_TB,
@@ -1044,7 +1044,7 @@ PROPS = {
                      "Vibrato.C07.dual_pinned_panics_below_8", "Vibrato.C07.avx2_eq_scalar",
                      "Vibrato.C07.raw_cost_deviates_pinned", "Vibrato.C07.dual_deviates_pinned",
                      "Vibrato.C07.raw_from_readers_empty_panics"],
-        "streams": with_cli(c07_streams, {"conn": conn_classify}, ("compile-bigram",), 12, 400),
+        "streams": with_cli(c07_streams, {"conn": conn_classify}, ("compile-bigram",), 12, 120),
         "rule": "bigram models with 0..20 templates (biased to 0-2, 7-9, 15-17), ragged rows, shared and quoted feature strings, "
                 "BOS/EOS lines, the (empty, empty) pair listed in a third of the models, rare malformed edits; every cost(r,l) of "
                 "raw and dual connectors (portable and AVX2 builds) compared with the model and with the defining sum; scorer "
@@ -1084,7 +1084,7 @@ PROPS = {
                      "Vibrato.Refine.applyOps_commutes", "Vibrato.Refine.map_compose_refined", "Vibrato.Refine.history_costs_refined",
                      "Vibrato.Refine.user_translated_by_all", "Vibrato.Refine.history_tokenize_refined",
                      "Vibrato.Refine.mapperAgree_true"],
-        "streams": with_cli(c06_streams, {}, ("map-", "reorder-map"), 12, 400),
+        "streams": with_cli(c06_streams, {}, ("map-", "reorder-map"), 12, 120),
         "rule": "random histories of {map (valid permutations and malformed iterators: 0, duplicate, omission, short, long), "
                 "load user lexicon (incl. out-of-range ids), clear, write/read} followed by tokenization; tokens must equal those of "
                 "the unmapped dictionary with the same user lexicon up to ids; non-trivial = at least one dictionary operation and tokens",
@@ -1147,7 +1147,7 @@ PROPS = {
                      "Vibrato.counts_history_independent", "Vibrato.counts_after_init", "Vibrato.sumIncr_append",
                      "Vibrato.empty_first_line_panics", "Vibrato.empty_later_line_recounts", "Vibrato.worker_probs_spec",
                      "Vibrato.worker_probs_eq_computeProbs", "Vibrato.counter_dims", "Vibrato.probs_never_panics", "Vibrato.reorder_accepted"],
-        "streams": with_cli(tok_streams("c13", 300, 8000, tok2_classifier("C13", has_probs)), {}, ("reorder-",), 12, 400),
+        "streams": with_cli(tok_streams("c13", 300, 8000, tok2_classifier("C13", has_probs)), {}, ("reorder-",), 12, 120),
         "rule": "histories of reset/tokenize/update_connid_counts incl. empty lines and repeats, with and without ignore_space; raw "
                 "counts compared with the model after every update; the id orderings must be permutations sorted by count then id",
         "trusted_base": LATTICE_TB + ["f64 ordering of cnt/sum assumed monotone in cnt (counts < 2^53)"],
@@ -1175,7 +1175,7 @@ PROPS = {
         "theorems": ["Vibrato.C05.decode_encode", "Vibrato.C05.reread_equal", "Vibrato.C05.trailing_ignored",
                      "Vibrato.C05.rewrite_same_bytes", "Vibrato.C05.behaviour_congr", "Vibrato.C05.accepted_is_wf",
                      "Vibrato.C05.reread_accepted", "Vibrato.C05.write_len", "Vibrato.C05.lane_repr_irrelevant"],
-        "streams": with_cli(image_streams("C05"), {}, ("compile-image", "compile-not-zstd", "compile-status"), 12, 400),
+        "streams": with_cli(image_streams("C05"), {}, ("compile-image", "compile-not-zstd", "compile-status"), 12, 120),
         "post_check": c05_cross_build,
         "rule": "dictionaries of all three connector kinds built from generated sources, then a random history of "
                 "{load user lexicon, map ids, write/read}; the whole image is decoded and re-encoded by the Lean model "
@@ -1250,7 +1250,7 @@ PROPS = {
                      # any number of workers, any interleaving, outputs included; and the converse (Props/C04n.lean)
                      "Vibrato.interleave_independent_n", "Vibrato.interleave_complete_n", "Vibrato.runSysN_length",
                      "Vibrato.concurrent_worker_reads_fresh"],
-        "streams": with_cli(c04_streams, {}, ("tokenize-output-detail",), 12, 400),
+        "streams": with_cli(c04_streams, {}, ("tokenize-output-detail",), 12, 120),
         "pre_checks": audit_shared_state,
         "rule": "random worker histories (reset incl. empty and shorter-after-longer sentences, repeated tokenize, "
                 "reads before tokenize, lattice dumps, counter ops) on one worker; non-trivial = some read returned tokens",
